@@ -802,7 +802,11 @@ class PfFile:
         pass
 
     def readline(self):
-        r, self.pending = self.pending, b''
+        i = self.pending.find(b'\n')
+        if i < 0:
+            r, self.pending = self.pending, b''
+        else:
+            r, self.pending = self.pending[:i + 1], self.pending[i + 1:]
         return r
 
 
@@ -838,6 +842,12 @@ def run_tcp(ctx, env, logs, case):
     lg.ins, lg.outs = ins, outs
     logs.append(lg)
     fault = case.get('fault')
+    pfile = info.get('pfile')
+    if pfile is not None and pfile.pending:
+        ctx.violation('C05:pf:unread-line-left-on-helper-channel', case=case,
+                      expected='one reply line per QUERY_PF_NAT, read by the client',
+                      observed='helper wrote %r; left unread: %r' % (pfile.replies, pfile.pending),
+                      note='a later query would take the leftover line as its answer')
     fallback = fault in ('enoprotoopt', 'peer-einval', 'nat-miss')
     ports_equal = fallback or case['method'] in ('tproxy', 'ipfw') or case['port'] == case['lport']
     exc_scripted = fault == 'peer-other' or (case['islocal'] == 'r' and ports_equal)
@@ -1319,10 +1329,14 @@ def run_pf_session(ctx, env, logs, case):
     fail_names = set()
     states = {}
 
+    misses = {}
+
     def kernel(raw):
         k = read_key(raw, layd)
         key = (k['af'], k['proto'], k['direction'], bytes(k['saddr']), k['sport'], bytes(k['daddr']), k['dport'])
-        if key not in states:
+        if key not in states or misses.get(key, 0) > 0:
+            if key in misses:
+                misses[key] -= 1               # the state becomes visible after `miss` failed lookups
             return OSError(errno.ENOENT, 'No such file or directory')
         a, p = states[key]
         return a, p, layd
@@ -1412,10 +1426,14 @@ def run_pf_session(ctx, env, logs, case):
                     raise e
                 lg.add('sess host %d' % (1 if fails else 0), '-')
                 continue
-            _, sport, addr_hex, port = op
+            sport, addr_hex, port = op[1], op[2], op[3]
+            miss = op[4] if len(op) > 4 else 0      # how many lookups of this flow fail with ENOENT first
             addr = common.unhex(addr_hex)
             src = ('10.0.0.7', sport)
-            states[(AF4, 6, 2, socket.inet_pton(AF4, src[0]), sport, socket.inet_pton(AF4, proxy_ip), lport)] = (addr, port)
+            skey = (AF4, 6, 2, socket.inet_pton(AF4, src[0]), sport, socket.inet_pton(AF4, proxy_ip), lport)
+            states[skey] = (addr, port)
+            if miss:
+                misses[skey] = miss
             sock = FakeSock(AF4, sockname=(proxy_ip, lport), peername=src)
             mux = env.client_mux(chani=i)
             n_reads = len(rec.reads)
@@ -1435,12 +1453,14 @@ def run_pf_session(ctx, env, logs, case):
                     exc = exc or e
                 connects.extend(env.connects)
             env.reset_server()
-            if not frames:
-                proc.wait(1.0)                       # dropped / failed: has the helper gone?
+            if not frames and not (miss and exc is None and rec.reads[n_reads:] and rec.reads[-1]):
+                proc.wait(1.0)                       # dropped / failed without a reply line: has the helper gone?
             helper_alive = proc.poll() is None
             if isinstance(exc, OSError) and not helper_alive and not frames:
                 break                                # write to the ended helper failed: the client stops here
             want_reply = b'QUERY_PF_NAT_SUCCESS %s,%d\n' % (socket.inet_ntop(AF4, addr).encode(), port)
+            if miss:
+                want_reply = b'QUERY_PF_NAT_FAILURE [Errno 2] No such file or directory\n'
             got = rec.reads[n_reads:]
             lg.add('sess query ' + hexb(want_reply),
                    ('line ' + hexb(got[0]) if got and got[0] else 'eof') if len(got) == 1 else 'reads=%d' % len(got))
@@ -1449,7 +1469,7 @@ def run_pf_session(ctx, env, logs, case):
                 what = ('C05:pf-session:unexpected-exception', repr(exc))
             elif len(connects) > 1 or any(not same_dest(f, ip, p, addr, port) for f, ip, p in connects):
                 what = ('C05:pf-session:destination-differs', 'connect_dst calls %r' % (connects,))
-            elif not connects and helper_alive:
+            elif not connects and helper_alive and not miss:
                 what = ('C05:pf-session:dropped-while-helper-alive',
                         'closed=%d, no CONNECT, helper still running; the client read %r' % (sock.closed, got))
             if what and bad is None:
@@ -1493,6 +1513,15 @@ def stream_pf_session(ctx, env, logs):
                 nfail += fails
                 ops.append(['host', rng.choice(names), '10.9.0.%d' % rng.randrange(1, 255), bool(fails)])
             else:
+                sport += 1
+                op = ['conn', sport, hexb(rng.choice(v4)), port_of(rng)]
+                if rng.random() < 0.2:
+                    op.append(rng.choice([1, 1, 2, 3]))      # the kernel lookup fails that many times first
+                ops.append(op)
+        if k % 3 == 1:                                 # a transient lookup failure followed by more connections
+            sport += 1
+            ops.insert(rng.randrange(0, len(ops)), ['conn', sport, hexb(rng.choice(v4)), port_of(rng), rng.choice([1, 2])])
+            for _ in range(2):
                 sport += 1
                 ops.append(['conn', sport, hexb(rng.choice(v4)), port_of(rng)])
         if k % 3 == 0:                                 # always some sessions with a failing rewrite in the middle
